@@ -41,6 +41,26 @@ pub fn run_c05(seed: u64, n: usize, out: &mut Out) {
         if r.pct(40) {
             lines.extend(gen::cluster(&mut r, &o));
         }
+        // rules stored in several buckets (no pattern token, one `domain=` value per bucket) next to rules
+        // that own one of those buckets alone: optimising a bucket must keep the shared ones
+        let mut aimed: Vec<(String, String, String)> = vec![];
+        if r.pct(30) {
+            let d1: &str = r.pick(&["shop.test", "cdn.test"]);
+            let d2: &str = r.pick(&["other.net", "sub.shop.test"]);
+            let tys = ["image", "script", "stylesheet", "font", "xhr"];
+            let t0: &str = r.pick(&tys);
+            lines.push(format!("*${},domain={}|{}", t0, d1, d2));
+            for _ in 0..2 + r.below(2) {
+                let t: &str = r.pick(&tys);
+                lines.push(format!("*${},domain={}", t, d1));
+            }
+            if r.pct(50) {
+                lines.push(format!("*${},domain={}", r.pick(&tys), d2));
+            }
+            for d in [d1, d2] {
+                aimed.push(("https://x.test/anything".to_string(), format!("https://{}/", d), if t0 == "xhr" { "xhr".to_string() } else { t0.to_string() }));
+            }
+        }
         let tags = tagsets(&mut r);
         let e_opt = build(&lines, true, &tags, &resources);
         let e_un = build(&lines, false, &tags, &resources);
@@ -52,7 +72,14 @@ pub fn run_c05(seed: u64, n: usize, out: &mut Out) {
         }
         let mut live_optimized = false;
         for k in 0..5 {
-            let (u, s, t) = gen::cluster_url(&mut r, &lines);
+            let (u, s, t) = match aimed.pop() {
+                Some(a) if k >= 3 || r.pct(50) => a,
+                Some(a) => {
+                    aimed.push(a);
+                    gen::cluster_url(&mut r, &lines)
+                }
+                None => gen::cluster_url(&mut r, &lines),
+            };
             if !u.is_ascii() {
                 continue;
             }
@@ -364,7 +391,21 @@ pub fn run_c13(seed: u64, n: usize, out: &mut Out) {
         let resources = if r.pct(30) { std_resources() } else { gen_store(&mut r) };
         let optimize = r.pct(50);
         let tags = vec![];
-        let e = build(&lines, optimize, &tags, &resources);
+        let mut e = build(&lines, optimize, &tags, &resources);
+        // the same answers from an engine that went through serialize / deserialize (resources are not part of
+        // the format and are loaded again)
+        if r.pct(35) {
+            if let Ok(bytes) = e.serialize_raw() {
+                let mut e2 = Engine::new(true);
+                if e2.deserialize(&bytes).is_ok() {
+                    e2.use_resources(resources.clone());
+                    e = e2;
+                    out.bump("c13_reloaded_engines");
+                } else {
+                    out.fail("deserialize-of-own-serialization-failed", None, json!({"rules": lines}));
+                }
+            }
+        }
         let rules = parse_all(&lines);
         if rules.is_empty() {
             continue;
